@@ -22,7 +22,7 @@ def gen_blocks(rng):
         if rng.random() < 0.3:
             # commands that write non-note events (meta, controller, program, bend): they belong to the chunk of the track they are issued on
             body.insert(rng.randrange(0, len(body) + 1), ('raw', rng.choice(["TimeSignature(%d,%d)" % (rng.randint(2, 7), rng.choice([4, 8])), "Tempo(%d)" % rng.randint(60, 200),
-                "TrackName={\"t%d\"}" % rng.randint(0, 9), "y7,%d;" % rng.randint(0, 127), "@%d;" % rng.randint(1, 128), "PB(%d)" % rng.randint(-100, 100), "Marker={\"m\"}", "P(%d)" % rng.randint(0, 127)])))
+                "TrackName={\"t%d\"};" % rng.randint(0, 9), "y7,%d;" % rng.randint(0, 127), "@%d;" % rng.randint(1, 128), "PB(%d)" % rng.randint(-100, 100), "Marker={\"m\"};", "P(%d)" % rng.randint(0, 127)])))
         blocks.append((tr, body))
     return blocks
 
@@ -106,7 +106,7 @@ def streams(tier, rng, P, only=None, cases=None):
             if rng.random() < 0.5:
                 prog.append(('tsync',))
             else:
-                parts = [mml.gen_cmds(rng, 1, rng.randrange(1, 4), top=False) for _ in range(rng.randrange(1, 5))]
+                parts = [(mml.gen_cmds(rng, 1, rng.choice([0, 1, 1, 2, 3]), top=False) or rng.choice([[], [('raw', '')]])) for _ in range(rng.randrange(1, 5))]     # an empty part leaves its track silent; the later parts keep their tracks
                 prog.append(('play', parts))
             # sentinel on several tracks
             for t in rng.sample([0, 1, 2, 3, 4, 5], rng.randrange(1, 4)):
